@@ -18,6 +18,9 @@ CAUGHT = {
  'C20-prefix-upper-bound': ('./check C20 --tier quick', 'resolve4-* jobs (4-byte ids, 5..8 digit prefixes): "resolution agrees with the set of ids that start with the prefix" sat at 7 digits; reproduced natively. The original jobs (ids sharing a concrete 3-byte prefix) MISSED it: the wrong carry only shows when neighbouring ids differ in the byte before the odd digit; jobs added'),
  'C21-squash-order': ('./check C21 --tier quick', 'seq-3_1_1-ordered: "lookup = last sequential write" and "save does not change the lookup" sat after the third save; the history (3,1,1) was not in the quick tier before the seed (added; it is the smallest history that squashes two ancestor segments)'),
  'C32-dot-component-fastpath': ('./check C32 --tier quick', 'from_relative_path-len3: "no empty, . or .. component" and "converts back to a file-system path" sat for "a/."; reproduced natively. Needed the std::path::MAIN_SEPARATOR constant in the engine first (exit 2 before)'),
+ 'C18-heads-min-generation': ('./check C18 --tier quick', 'heads-n5-cand3: "candidate kept iff no other candidate descends from it" sat for 3 candidates on 5 positions. The quick tier as it stood (heads_pos on <=4 positions) MISSED it - the smallest instance needs 5 positions (two roots) - while the thorough tier (heads-n5*) caught it; the 3-candidate job on 5 positions was added to the quick tier'),
+ 'C06-unsimplified-unchanged-check': ('./check C06 --tier quick', 'same-AAABC-Diff and the other redundant-pair shapes: "an unedited conflicted file is recorded as exactly the original conflict" sat (solver verdict; store is a stub)'),
+ 'C16-remote-target-fastpath': ('./check C16 --tier quick', 'bookmarks-*-rconflictd/rconflictn and tags-*: "View.remote_views reads back identical" sat. MISSED by the check as it stood: its only conflict shape was add/add with an absent base; the change/delete and delete/change shapes (one absent add) were added. Also needed Itertools::at_most_one and iteration over &Option (exit 2 before)'),
  'C44-exact-fit-zero-width': ('./check C44 --tier quick', '"text that already fits is returned unchanged" sat; reproduced natively'),
 }
 base = set(l.strip() for l in open('/tmp/baseline_names.txt')) if os.path.exists('/tmp/baseline_names.txt') else None
